@@ -55,7 +55,9 @@ def run(chk):
         chk.ob("R-ST-SIB", c + "{rows}", "rows 1 : n/2+1 (the zero-frequency row is dropped)", facts.get("rows") == ("1", HALF + "+1"), derived="%s" % (facts.get("rows"),),
                loc=fi.loc(), inconclusive=facts.get("rows") is None)
         chk.ob("R-ST-SIB", c + "{inverse fft}", "inverse FFT of (spectrum rows x Gaussian) along axis 1", facts.get("ifft.axis") == 1 and facts.get("ifft.window") is True,
-               derived="axis=%s, window applied: %s" % (facts.get("ifft.axis"), facts.get("ifft.window")), loc=fi.loc())
+               derived="axis=%s, window applied: %s" % (facts.get("ifft.axis"), facts.get("ifft.window")), loc=fi.loc(),
+               # several inverse transforms (a blocked / row-by-row design): the single-expression facts do not describe it
+               inconclusive=sum(1 for s_ in sk if s_[0] == "ifft") != 1)
         ifc = [n for n in ast.walk(fi.node) if isinstance(n, ast.Call) and ast.unparse(n.func).split(".")[-1] == "ifft" and n.args and
                isinstance(n.args[0], ast.BinOp)]
         for n in ifc[:1]:
@@ -72,7 +74,8 @@ def run(chk):
                inconclusive=not (r.ret is not None and "toeplitz" in r.ret.tags) and tz is None)
     chk.ob("R-ST-SIB", "transform~transform_w_scipy_fft", "equal skeletons", sks["transform"] == sks["transform_w_scipy_fft"] and len(sks["transform"]) >= 6,
            derived="%s vs %s" % (sks["transform"], sks["transform_w_scipy_fft"]),
-           inconclusive=(sks["transform"] == sks["transform_w_scipy_fft"]))       # equal but shorter than the known construction: not located
+           inconclusive=(sks["transform"] == sks["transform_w_scipy_fft"]) or       # equal but shorter than the known construction: not located
+           len(sks["transform"]) != len(sks["transform_w_scipy_fft"]))         # a different number of steps: another design, not a located difference
     # window depends only on n/2
     r = analyse(chk, ST + "generate_gaussian", lambda I, st, fi: dict(n_d2=int_scalar("n_d2", "h")))
     expect(chk, "R-ST-LIN", "eqsig/stockwell.py:generate_gaussian", r.ret, shape=("h", LinExpr("h").scale(2)), sign="pos", const_in=[R], loc=r.fi.loc())
